@@ -279,6 +279,13 @@ inductive Op where
   | updateConfig (owner collector : Option Nat) (fees : Option Fees)
       (tog : Option (Bool × Bool × Bool)) (ramp : Option (Nat × Nat))
   | donate (i amt : Nat)
+  /-- messages a cw20-LP pool must refuse whatever they carry: `ExecuteMsg::WithdrawLiquidity {}` sent
+      directly with any attached coins (`kind = 0`; it is the token-factory entry point: the LP denom
+      it compares with is empty, `contract.rs`), a `WithdrawLiquidity` hook arriving from a token that
+      is not the LP token (`kind = 1`; `OperationDisabled` / `Unauthorized`, `commands::receive_cw20`),
+      a `Swap` hook arriving from the LP token, which is not a pool asset (`kind = 2`).
+      `a` = what was attached / which token, `amt` = the amount -/
+  | foreign (kind a amt : Nat)
 
 /-- account `u` → pool, asset `i` (bank send / cw20 transfer; the debit is checked) -/
 def moveIn (s : St) (u i amt : Nat) : Res St :=
@@ -497,6 +504,7 @@ def step (h u : Nat) (s : St) : Op → Res St
   | .collect => collect s
   | .updateConfig o c f t r => updateConfig s h u o c f t r
   | .donate i amt => donate s u i amt
+  | .foreign _ _ _ => .err
 
 /-- a history: operations with their block height and sender; failed operations are skipped -/
 def run (s : St) : List (Nat × Nat × Op) → St
